@@ -1048,12 +1048,28 @@ def gen_cases2(tier, rng):
     for m in M:
         for g in groups:
             cases.append(dict(kind="h2-stale", n=2, k=2, views=False, lite=True, skip=len(PRE2), ops=PRE2 + g + [m] + g))
+    # edits that keep every COUNT (species, reactions, labels) but change the content: remove one thing and add another
+    SWAPS = [
+        [["rmrxn", 0, "q_1"], ["add", 0, P(("C", 2)), P(("A", 3)), "q", "q_1"]],                      # same id, other coefficients
+        [["rmrxn", 0, "q_1"], ["add", 0, P(("A", 1)), P(("C", 1)), "q", None]],                        # reversed reaction, id q_2
+        [["rmrxn", 0, "r_1"], ["add", 0, P(("A", 1), ("r_2", 1)), P(("B", 2)), "r", "r_9"]],           # same reaction under another id
+        [["rmsp", 0, "x", True], ["add", 0, P(("B", 1)), P(("y", 1)), "q", None]],                     # species x replaced by y
+        [["rmsp", 0, "D", True], ["add", 0, P(("B", 1)), P(("Dd", 1)), "r", None], ["rmrxn", 0, "A"]],
+        [["molmap", 0, P(("A", 1), ("B", 2), ("r_2", 3), ("x", 4), ("D", 5)), True, True]],             # same keys, other labels
+        [["molmap", 0, P(("C", "c")), True, False], ["rmsp", 0, "r_2", True], ["add", 0, P(("r_2", 1)), P(("A", 1)), "r", None]],
+        [["copy", 1, 0], ["copy", 0, 1]],
+        [["merge", 0, 1, False], ["rmrxn", 0, "r_2"], ["rmrxn", 0, "r_3"]],
+    ]
+    for sw in SWAPS:
+        for g in groups:
+            cases.append(dict(kind="h2-count", n=2, k=2, views=False, lite=True, skip=len(PRE2), ops=PRE2 + g + sw + g))
+        cases.append(dict(kind="h2-count", n=2, k=2, views=True, skip=len(PRE2), ops=PRE2 + sw))
     if tier == "thorough":
         for m in M:
             for g in groups:
                 gq = [["q", 1, q[2]] + q[3:] for q in g]
                 cases.append(dict(kind="h2-stale", n=2, k=2, views=False, lite=True, skip=len(PRE2),
-                                  ops=PRE2 + g + gq + [m] + [["copy", 0, 1]] * 0 + g + gq))
+                                  ops=PRE2 + g + gq + [m] + g + gq))
     # (B') edit -> edit -> query / copy then edit the original, query both
     mm = [(a, b) for a in M for b in M]
     for a, b in rng.sample(mm, 600 if tier == "quick" else 3000):
